@@ -27,6 +27,10 @@ def program(g, ci):
                 {"op": "el.getArrays", "id": e, "time": True}, {"op": "el.getArrays", "id": e, "time": False},
                 {"op": "el.points", "id": e}, {"op": "el.duration", "id": e}, {"op": "el.SR", "id": e}, {"op": "el.desc", "id": e},
                 {"op": "el.copy", "id": e, "to": e + "c"}, {"op": "el.eq", "a": e, "b": e + "c"},
+                # the description read back: same description, same forged arrays once at the same rate
+                {"op": "bp.json", "id": b, "to": b + "j"}, {"op": "bp.setSR", "id": b + "j", "SR": sr}, {"op": "bp.desc", "id": b + "j"},
+                {"op": "el.new", "id": e + "j"}, {"op": "el.addBP", "id": e + "j", "ch": 1, "bp": b + "j"},
+                {"op": "el.getArrays", "id": e + "j", "time": False},
                 {"op": "sq.new", "id": s}, {"op": "sq.setSR", "id": s, "v": sr}, {"op": "sq.addElement", "id": s, "pos": 1, "el": e},
                 {"op": "sq.forge", "id": s, "delays": True, "filters": True, "time": r.random() < 0.5}, {"op": "sq.desc", "id": s}]
     names = sorted({o[k] for o in ops for k in ("id", "to") if isinstance(o.get(k), str)})
